@@ -39,6 +39,20 @@ pub struct C14Case {
     pub wops: Vec<WOp>,
     pub plan: Option<Vec<(WOp, WFault)>>,
     pub read_chunk_seed: u64,
+    /// 0: labels `a<k>`; n > 0: labels from a pool of NESTED identifiers (prefixes and suffixes of
+    /// one another: a, ab, abc, b, bc, c, aa, aaa, a_, _a …) rotated by n
+    #[serde(default)]
+    pub label_scheme: u64,
+}
+
+const NESTED: [&str; 20] = ["a", "ab", "abc", "b", "bc", "c", "aa", "aaa", "a_", "_a", "x", "x_", "_y1", "y1", "x1", "x10", "x_1", "A", "Ab", "aB"];
+
+fn label_of(scheme: u64, l: L) -> String {
+    if scheme == 0 || (l as usize) >= NESTED.len() {
+        string_label(l)
+    } else {
+        NESTED[(l as usize + scheme as usize) % NESTED.len()].to_string()
+    }
 }
 
 pub struct C14;
@@ -65,11 +79,11 @@ fn build<T: crustabri::utils::LabelType>(case: &C14Case, mk: &dyn Fn(L) -> T) ->
     (af, store)
 }
 
-fn do_write(op: WOp, afs: &AAFramework<String>, afu: &AAFramework<usize>, ext: &[L], w: &mut dyn Write) -> Result<(), String> {
+fn do_write(op: WOp, afs: &AAFramework<String>, afu: &AAFramework<usize>, ext: &[L], scheme: u64, w: &mut dyn Write) -> Result<(), String> {
     match op {
         WOp::Framework => AspartixWriter.write_framework(afs, w).map_err(|e| e.to_string()),
         WOp::ExtApx => {
-            let e: Vec<&Argument<String>> = ext.iter().map(|l| afs.argument_set().get_argument(&string_label(*l)).unwrap()).collect();
+            let e: Vec<&Argument<String>> = ext.iter().map(|l| afs.argument_set().get_argument(&label_of(scheme, *l)).unwrap()).collect();
             ResponseWriter::<String>::write_single_extension(&AspartixWriter, w, &e).map_err(|e| e.to_string())
         }
         WOp::ExtIccma => {
@@ -201,12 +215,14 @@ impl Property for C14 {
         let mut wops = vec![WOp::Framework, WOp::ExtApx, WOp::ExtIccma];
         wops.push(WOp::Status(rng.bool(), rng.bool()));
         wops.push(WOp::NoExtension(rng.bool()));
-        serde_json::to_value(C14Case { init, ops, ext, wops, plan: None, read_chunk_seed: rng.next_u64() >> 20 }).unwrap()
+        let label_scheme = if !big && rng.chance(1, 3) { 1 + rng.below(NESTED.len()) as u64 } else { 0 };
+        serde_json::to_value(C14Case { init, ops, ext, wops, plan: None, read_chunk_seed: rng.next_u64() >> 20, label_scheme }).unwrap()
     }
     fn exec(&self, case: &Value) -> RunResult {
         let mut case: C14Case = serde_json::from_value(case.clone()).expect("C14 case");
         let mut r = RunResult::default();
-        let (afs, store) = build(&case, &string_label);
+        let scheme = case.label_scheme;
+        let (afs, store) = build(&case, &|l| label_of(scheme, l));
         let (afu, _) = build(&case, &usize_label);
         case.ext.retain(|l| store.live.contains_key(l));
         let mut seen = vec![];
@@ -219,7 +235,7 @@ impl Property for C14 {
             }
         });
         let args = store.args_by_id();
-        let exp_labels: Vec<String> = args.iter().map(|(_, l)| string_label(*l)).collect();
+        let exp_labels: Vec<String> = args.iter().map(|(_, l)| label_of(scheme, *l)).collect();
         let pos_of_id = |id: usize| args.iter().position(|(i, _)| *i == id).unwrap();
         let mut exp_atts: Vec<(usize, usize)> = store.attacks.iter().map(|(a, b)| (pos_of_id(*a), pos_of_id(*b))).collect();
         exp_atts.sort();
@@ -232,7 +248,7 @@ impl Property for C14 {
             let site = |v: Violation| v.at("write", format!("{:?}", op).split('(').next().unwrap().to_string());
             // fault-free output
             let mut fw = FaultyWrite::new(WritePlan::plain());
-            let res = catch_unwind(AssertUnwindSafe(|| do_write(*op, &afs, &afu, &case.ext, &mut fw)));
+            let res = catch_unwind(AssertUnwindSafe(|| do_write(*op, &afs, &afu, &case.ext, case.label_scheme, &mut fw)));
             let out = match res {
                 Ok(Ok(())) => fw.accepted.clone(),
                 Ok(Err(e)) => {
@@ -274,7 +290,7 @@ impl Property for C14 {
                 }
                 WOp::ExtApx | WOp::ExtIccma => {
                     let parsed = if *op == WOp::ExtApx { parse_apx_ext(&out) } else { parse_iccma_ext(&out) };
-                    let exp: Vec<String> = case.ext.iter().map(|l| if *op == WOp::ExtApx { string_label(*l) } else { usize_label(*l).to_string() }).collect();
+                    let exp: Vec<String> = case.ext.iter().map(|l| if *op == WOp::ExtApx { label_of(scheme, *l) } else { usize_label(*l).to_string() }).collect();
                     match parsed {
                         None => Some(format!("extension line {:?} does not follow the answer grammar", shown)),
                         Some(mut p) => {
@@ -354,7 +370,7 @@ impl Property for C14 {
                     }
                 };
                 let mut fw = FaultyWrite::new(plan);
-                let res = catch_unwind(AssertUnwindSafe(|| do_write(*op, &afs, &afu, &case.ext, &mut fw)));
+                let res = catch_unwind(AssertUnwindSafe(|| do_write(*op, &afs, &afu, &case.ext, case.label_scheme, &mut fw)));
                 r.count(&format!("faults_injected_{}", kind), 1);
                 if fw.errors > 0 {
                     r.count(&format!("faults_fired_{}", kind), 1);
@@ -408,6 +424,9 @@ impl Property for C14 {
     fn shrink(&self, case: &Value) -> Vec<Value> {
         let case: C14Case = serde_json::from_value(case.clone()).unwrap();
         let mut out = vec![];
+        if case.label_scheme != 0 {
+            out.push(C14Case { label_scheme: 0, ..case.clone() });
+        }
         if case.plan.is_none() {
             let r = self.exec(&serde_json::to_value(&case).unwrap());
             for v in &r.violations {
@@ -456,7 +475,7 @@ impl Property for C14 {
         out.into_iter().map(|c| serde_json::to_value(c).unwrap()).collect()
     }
     fn rule(&self) -> String {
-        "case = a framework produced by an update history (so removed arguments/attacks exist) over String labels that are valid Aspartix identifiers (and the same history over usize labels for the ICCMA'23 writer), an extension (incl. empty, any order), a status. Fault-free: write_framework -> bytes must be a well-formed Aspartix file by the reference parser and read back (through a chunked, EINTR-injecting stream) to the same labels in the same order and the same attack set; extension lines must follow the answer grammars (`w( l)*\\n`, `[l(,l)*]\\n`) and carry exactly the written labels; statuses are exactly YES\\n / NO\\n. FAULT ENUMERATION per write operation: hard write error at EVERY byte offset, zero-length write at every third offset, failing flush, seeded short writes with EINTR: Err (never Ok) when the sink failed, no panic, emitted bytes are a prefix of the fault-free output; short writes/EINTR are transparent. Non-trivial = history created >= 2 arguments; distinct = distinct (history, extension)".into()
+        "case = a framework produced by an update history (so removed arguments/attacks exist) over String labels that are valid Aspartix identifiers (`a<k>`, or in a third of the runs NESTED identifiers: prefixes and suffixes of one another, differing in case only; and the same history over usize labels for the ICCMA'23 writer), an extension (incl. empty, any order), a status. Fault-free: write_framework -> bytes must be a well-formed Aspartix file by the reference parser and read back (through a chunked, EINTR-injecting stream) to the same labels in the same order and the same attack set; extension lines must follow the answer grammars (`w( l)*\\n`, `[l(,l)*]\\n`) and carry exactly the written labels; statuses are exactly YES\\n / NO\\n. FAULT ENUMERATION per write operation: hard write error at EVERY byte offset, zero-length write at every third offset, failing flush, seeded short writes with EINTR: Err (never Ok) when the sink failed, no panic, emitted bytes are a prefix of the fault-free output; short writes/EINTR are transparent. Non-trivial = history created >= 2 arguments; distinct = distinct (history, extension)".into()
     }
     fn assumptions(&self) -> Vec<String> {
         vec!["RefApx and the two answer grammars are written independently of the writers".into(), "labels are valid Aspartix identifiers (a<k>), as the property restricts".into()]
